@@ -306,11 +306,13 @@ pub fn c15(run: &Run) -> Vec<String> {
     let limit = match run.cfg.discard {
         Discard::None => None,
         Discard::Newest(l) | Discard::Oldest(l) => Some(l),
+        // no limit until a settings update installs one
+        Discard::LateNewest | Discard::LateOldest => Some(usize::MAX),
     };
     // the limit in effect after history[i] (settings updates move it)
     // (mode Newest only ever refuses the incoming job, so jobs admitted under an earlier, larger limit stay:
     // there the bound is the largest limit that was in effect so far)
-    let newest_mode = matches!(run.cfg.discard, Discard::Newest(_));
+    let newest_mode = matches!(run.cfg.discard, Discard::Newest(_) | Discard::LateNewest);
     let limit_at = |i: usize| {
         let upto = run.limits.iter().filter(|(from, _)| *from <= i);
         if newest_mode {
@@ -333,7 +335,7 @@ pub fn c15(run: &Run) -> Vec<String> {
                     // jobs the priority manager declares non-discardable (key b in the prio-keep units) are
                     // queued regardless of the limit
                     let keep = if run.cfg.queue == QueueKind::PriorityKeep { run.history[..=*step].iter().filter(|e| matches!(e, Event::Dispatch(1))).count() } else { 0 };
-                    if *q > l + keep {
+                    if *q > l.saturating_add(keep) {
                         bad.push(format!("after step {step} of {:?} the factory queue holds {q} jobs, the discard limit is {l} ({keep} non-discardable jobs were dispatched)", run.history));
                     }
                 }
@@ -367,12 +369,12 @@ pub fn c15(run: &Run) -> Vec<String> {
                     .collect();
                 let newest = run.jobs.iter().filter(|j| j.lc < *t).map(|j| j.id).max();
                 match run.cfg.discard {
-                    Discard::Newest(_) => {
+                    Discard::Newest(_) | Discard::LateNewest => {
                         if Some(*id) != newest {
                             bad.push(format!("discard mode Newest shed job {id}, but the job being dispatched was {newest:?} (waiting: {waiting:?}, history {:?})", run.history));
                         }
                     }
-                    Discard::Oldest(_) => {
+                    Discard::Oldest(_) | Discard::LateOldest => {
                         let class = |i: u32| if run.cfg.queue == QueueKind::Default { 0 } else { key_of(i) };
                         let candidates: Vec<u32> = waiting.clone();
                         // lowest priority class present (key a = best effort = class 0 here), then the oldest in it
